@@ -639,9 +639,10 @@ theorem K1_of_run (hsv : Function.Injective N.svcId) (steps : List Step) (T0 end
 /-! ### host-local lifting -/
 
 /-- host `N.host`'s part of the link trace `tr` is the projection of a disciplined, fair timed run `steps` of the C08/C09 host
-machine that is open until the end of the window: its sends — instant, items **and destination** (`Bridge.dstOf`: the multicast
-group for everything the host sends on its own initiative, by the generated leaves of `Zc.Gen.Link`) — and the `reg` / `upd` /
-`unreg` events of its services.  (`taskMcast` and `ByeMulticast`, formerly hypotheses, are theorems now: `AnnAt_mcast_tr`,
+machine that is open until the end of the window: its sends **that carry a pointer record** — instant, items and destination
+(`Bridge.dstOf`: the multicast group for everything the host sends on its own initiative, by the generated leaves of `Zc.Gen.Link`);
+the questions a host sends are its browsers' and its probes', not this machine's — and the `reg` / `upd` / `unreg` events of its
+services.  (`taskMcast` and `ByeMulticast`, formerly hypotheses, are theorems now: `AnnAt_mcast_tr`,
 `byeMulticast_of_generated`.) -/
 structure HostRun (tr : Link.Trace) (endT : Int) (N : Naming) (steps : List Step) (T0 : Int) : Prop where
   tyInj : Function.Injective N.tyId
@@ -652,7 +653,7 @@ structure HostRun (tr : Link.Trace) (endT : Int) (N : Naming) (steps : List Step
   distinct : DistinctCalls lower N steps
   fair : Fair steps endT
   opened : Open steps
-  sendsIn : ∀ sd ∈ Link.sends tr, sd.h = N.host →
+  sendsIn : ∀ sd ∈ Link.sends tr, sd.h = N.host → Link.ptrSvcs sd.items ≠ [] →
     ∃ sd' ∈ Link.sends (events lower N steps), sd'.t = sd.t ∧ sd'.items = sd.items ∧ sd'.dst = sd.dst
   sendsOut : ∀ sd' ∈ Link.sends (events lower N steps),
     ∃ sd ∈ Link.sends tr, sd.h = N.host ∧ sd.t = sd'.t ∧ sd.items = sd'.items ∧ sd.dst = sd'.dst
